@@ -307,10 +307,7 @@ def rule_prim(ctx, crate):
 # rule sets
 
 def run_runtime_rules(ctx, crate, label):
-    try:
-        import convcheck
-    except ImportError:
-        return
+    import convcheck      # (a failure to load the analyser must fail the checks, not skip them)
     convcheck.run(ctx, crate, label)
 
 
